@@ -196,6 +196,39 @@ theorem duration_printer_total : Statement_duration_printer_total := by
   by_cases h1 : us < 0 <;> by_cases h2 : 0 < us <;> by_cases h3 : y * 12 + m < 0 <;>
     cases hh : (isDur && !(y == 0 && m == 0)) <;> simp [h1, h2, h3] <;> (try split) <;> simp <;> omega
 
+/-- `Literal(timedelta)` / `Literal(Duration)`: documented datatype (xsd:dayTimeDuration / xsd:duration), a
+    lexical form in that datatype's XSD lexical space, and the same value read back — for every timedelta in
+    range and every Duration with whole years, `0 ≤ months < 12` and one sign -/
+def Statement_duration_py_to_lit : Prop :=
+  (∀ us : Int, tdInRange us = true →
+    ∃ l, mkValue (.timedelta us) none = some l ∧ l.dt = some .dayTimeDuration ∧
+      Spec.validLex .dayTimeDuration l.lex = true ∧ castLex l.dt l.lex = some (.timedelta us)) ∧
+  (∀ (y m us : Int) (lx : Str), 0 ≤ m ∧ m < 12 → tdInRange us = true → durationIso y m us true = some lx →
+    ∃ l, mkValue (.duration y m us) none = some l ∧ l.dt = some .duration ∧ l.lex = lx ∧
+      Spec.validLex .duration l.lex = true ∧
+      castLex l.dt l.lex = some (if y == 0 && m == 0 then .timedelta us else .duration y m us))
+
+theorem duration_py_to_lit : Statement_duration_py_to_lit := by
+  constructor
+  · intro us hr
+    -- a timedelta is never refused by the printer
+    have hsome : (durationIso 0 0 us false).isSome = true := (duration_printer_total 0 0 us false).mpr (by simp)
+    obtain ⟨lx, hlx⟩ := Option.isSome_iff_exists.mp hsome
+    have hback := parse_durationIso 0 0 us false lx ⟨by decide, by decide⟩ hr hlx
+    have hval := (durLex_durationIso 0 0 us false lx hlx).2 rfl
+    have hp : pyLex (.timedelta us) none = some lx := by simp [pyLex, hlx]
+    refine ⟨⟨lx, some .dayTimeDuration, some (.timedelta us), none⟩, ?_, rfl, hval, ?_⟩
+    · simp [mkValue, mkPy, hp, coalesceDt, genericDt, postProcess]
+    · simpa [castLex, Dt.conv, dHasYM] using hback
+  · intro y m us lx hm hr hlx
+    have hback := parse_durationIso y m us true lx hm hr hlx
+    have hval := (durLex_durationIso y m us true lx hlx).1
+    have hp : pyLex (.duration y m us) none = some lx := by simp [pyLex, hlx]
+    refine ⟨⟨lx, some .duration, some (.duration y m us), none⟩, ?_, rfl, rfl, hval, ?_⟩
+    · simp [mkValue, mkPy, hp, coalesceDt, genericDt, postProcess]
+    · simp only [castLex, Dt.conv, hback, dHasYM, Bool.true_and]
+      by_cases h0 : (y == 0 && m == 0) = true <;> simp [h0]
+
 /-! ## 6. dates -/
 
 /-- `Literal(date(y, m, d))` (any date CPython can hold): datatype xsd:date, a lexical form in the XSD
